@@ -36,7 +36,8 @@ func main() {
 		fmt.Println("usage: gosx run <Harness> | check <ID> [--tier quick|thorough] | replay <path> | selftest")
 		os.Exit(2)
 	}
-	debug.SetGCPercent(600) // the SSA program is a large, static heap: collect less often
+	debug.SetGCPercent(200)        // the SSA program is a large, static heap: collect less often
+	debug.SetMemoryLimit(10 << 30) // ... but stay well inside the machine (background runs are capped at 16 GB)
 	if d := os.Getenv("VERIF_DIR"); d != "" {
 		verifDir = d
 	}
@@ -66,6 +67,9 @@ func main() {
 			os.Exit(3)
 		}
 		cfg := defaultCfg(*tier)
+		if *tier == "thorough" {
+			cfg.tierN = 1
+		}
 		cfg.workers = *workers
 		cfg.trace = *trace
 		if *nomerge {
@@ -77,6 +81,11 @@ func main() {
 		r := newHarnessRun(l.prog, pkg, fn, cfg)
 		r.initPkgs = l.initPkgs(pkg)
 		r.explore()
+		if mp := os.Getenv("GOSX_MEMPROF"); mp != "" {
+			f, _ := os.Create(mp)
+			pprof.WriteHeapProfile(f)
+			f.Close()
+		}
 		if *jsonOut {
 			b, _ := json.MarshalIndent(r.summary(), "", " ")
 			fmt.Println(string(b))
